@@ -42,6 +42,8 @@ CONSTANTS TC,          \* record: class name -> _ufl_typecode_ of the real class
           Sharing,     \* TRUE: equal subterms are ONE python object (`is` = value equality);
                        \* FALSE: every occurrence is a separate object (`is` never holds)
           MILens,      \* lengths of the multi-indices present in the universe
+          ReprRule,    \* "string": _cmp_terminal_by_repr compares the repr strings as python strings (pinned
+                       \* tree); "natural": numbers embedded in the repr are compared by value
           MiLenRule,   \* "ignore": _cmp_multi_index as coded in the pinned tree (lengths are never
                        \* compared); "after" / "before": the two one-line repairs (compare the
                        \* lengths after / before the zip loop).  The harness probes the real
@@ -144,13 +146,38 @@ LexCmp(s, t) ==
   ELSE IF s[1] > t[1] THEN 1
   ELSE LexCmp(Tail(s), Tail(t))
 
+\* natural order of two strings: maximal digit runs compare by value, text in between as strings
+\* (python list comparison of re.split(r"(\d+)", s) with the numbers converted to int)
+IsDig(ch) == ch >= 48 /\ ch <= 57
+RECURSIVE DigRun(_)
+DigRun(s) == IF s = << >> \/ ~IsDig(s[1]) THEN 0 ELSE 1 + DigRun(Tail(s))
+RECURSIVE NumVal(_, _, _)
+NumVal(s, k, acc) == IF k = 0 THEN acc ELSE NumVal(Tail(s), k - 1, acc * 10 + (s[1] - 48))
+RECURSIVE NatCmp(_, _)
+NatCmp(s, t) ==
+  IF s = << >> THEN (IF t = << >> THEN 0 ELSE -1)
+  ELSE IF t = << >> THEN 1
+  ELSE IF IsDig(s[1]) /\ IsDig(t[1]) THEN
+         LET a == DigRun(s)  b == DigRun(t)
+             x == NumVal(s, a, 0)  y == NumVal(t, b, 0) IN
+         IF x < y THEN -1 ELSE IF x > y THEN 1
+         ELSE NatCmp(SubSeq(s, a + 1, Len(s)), SubSeq(t, b + 1, Len(t)))
+  ELSE IF IsDig(s[1]) THEN -1          \* the text token of s ended first: it is a proper prefix
+  ELSE IF IsDig(t[1]) THEN 1
+  ELSE IF s[1] < t[1] THEN -1
+  ELSE IF s[1] > t[1] THEN 1
+  ELSE NatCmp(Tail(s), Tail(t))
+ReprCmp(s, t) == IF ReprRule = "natural"
+                 THEN (LET c == NatCmp(s, t) IN IF c # 0 THEN c ELSE LexCmp(s, t))
+                 ELSE LexCmp(s, t)
+
 \* the dispatch `if x in _terminal_cmps: ... else _cmp_terminal_by_repr`
 TermCmp(x, y) ==
   IF x.tc = TC.MultiIndex       THEN [c |-> MiCmpCoded(x.ix, y.ix),  br |-> "multiindex"]
   ELSE IF x.tc = TC.Argument    THEN [c |-> ArgCmp(x, y),         br |-> "argument"]
   ELSE IF x.tc = TC.Coefficient THEN [c |-> CoefCmp(x, y),        br |-> "coefficient"]
   ELSE IF x.tc = TC.Label       THEN [c |-> 0,                    br |-> "label"]
-  ELSE                               [c |-> LexCmp(Repr(x), Repr(y)), br |-> "repr"]
+  ELSE                               [c |-> ReprCmp(Repr(x), Repr(y)), br |-> "repr"]
 
 ----------------------------------------------------------------------------
 (* PART 1b.  The loop of cmp_expr, as coded.  A loop state is              *)
